@@ -566,6 +566,30 @@ func runIndepCase(raw json.RawMessage, w *TraceWriter) {
 			orig[k] ^= 0xFF
 		}
 	}
+	// 2b. the results belong to the caller: with every byte-slice result overwritten, the same input decoded again
+	// (same API, same setting) still yields the original values
+	for i := range recs {
+		if !recs[i].isStr {
+			for k := range recs[i].b {
+				recs[i].b[k] ^= 0xFF
+			}
+		}
+	}
+	again := run(c.Span)
+	same := len(again) == len(recs)
+	for i := range again {
+		if same && !bytes.Equal(again[i].b, recs[i].ref) {
+			same = false
+		}
+	}
+	for i := range recs {
+		if !recs[i].isStr {
+			for k := range recs[i].b {
+				recs[i].b[k] ^= 0xFF
+			}
+		}
+	}
+	w.Ev("mut", "what", "decoded-again-while-earlier-results-are-overwritten", "intact", same, "inputintact", bytes.Equal(in, inCopy))
 	// 3. the same decode with the other span-cache setting gives identical values
 	other := run(!c.Span)
 	if rd != nil {
